@@ -328,7 +328,7 @@ PROPS = {
                  '(R2D VN/rn, R2D VE/rp, -VD) from the initial values (formal integrals, Picard '
                  'iteration of the latitude equation): the three forms describe one motion'],
         undecided=['spline interpolation / quadrature error and its decay with the sampling interval',
-                   'convergence of the latitude iteration within its 3 steps (1 cm test)',
+                   'the actual (not a-priori) error of the latitude iteration on a given trajectory',
                    'numerical reproduction of the trajectory by strapdown integration']),
 }
 
